@@ -30,7 +30,7 @@ def cases(tier, rng):
         yield (hist_case(aid(dim, rng.randrange(4), rng.random() < .5, rng.random() < .5), dim, states, dts, rng), 'random')
 
 def app_cases(tier, rng):
-    from scen import Ids, action, spec, c_script, sop, spawn, frame, raw, scenario, REBUILD, remove, insert
+    from scen import Ids, action, spec, c_script, sop, spawn, frame, raw, scenario, REBUILD, remove, insert, despawn
     SPEEDS = [F(0), F(1, 4), F(1, 2), F(1), F(1), F(2), F(4)]
     for _ in range(1500 if tier == 'thorough' else 120):
         ids = Ids()
@@ -48,17 +48,23 @@ def app_cases(tier, rng):
                 conds.append(c_script('(KBlocker false)', [rng.choice(['SFired', 'SFired', 'SFired', 'SNone']) for _ in range(L + 1)]))
             acts.append(action(ids, aid(j % 4, j, False, False), [], [], conds))
         c = rng.choice([0, 1])
-        cfg = {(c, 0): spec(acts)}
-        steps = [sop(spawn(0, [c]))]
+        sp = spec(acts)
+        # a shared context with three holders, one or two of which leave in mid-run: the durations of the remaining
+        # holders go on as if nothing had happened
+        holders = [0, 1, 2] if c == 1 and rng.random() < .6 else [0]
+        cfg = {(c, e): sp for e in holders}
+        steps = [sop(spawn(e, [c])) for e in holders]
+        leave = {rng.randrange(1, L): rng.choice([remove(e, c), despawn(e)]) for e in holders[1:] if rng.random() < .7}
         speed, paused = F(1), False
         for i in range(L):
             if rng.random() < 0.25: speed = rng.choice(SPEEDS)
             if rng.random() < 0.15: paused = not paused
             real = rand_dt(rng, maxe=7) if rng.random() < .85 else rng.choice([F(1, 2), F(3, 8)])     # beyond the 250 ms clamp
+            if i in leave: steps.append(sop(leave[i]))
             steps.append(frame(raw(), real, speed, paused))
             if i == L // 2 and rng.random() < 0.3:
                 steps.append(sop(REBUILD))
-        yield (scenario([c], [0], cfg, steps), 'virtual-time')
+        yield (scenario([c], holders, cfg, steps), 'virtual-time')
 
 def nontrivial(case, out):
     return ('SFired' in case or 'SOngoing' in case)
@@ -72,9 +78,9 @@ STAGES = [dict(name='data', mode='unit', coq='Check.C10c', cases=cases, nontrivi
 STAGES.append(dict(name='virtual', mode='app', coq='Check.C10a', cases=app_cases, nontrivial=nontrivial, shard=25,
                    exhaustive={'thorough': False, 'quick': False},
                    rule='real App with TimeUpdateStrategy::ManualDuration: 1-3 actions driven by sticky scripted states (some with a scripted events-only or plain blocker) over 6-30 frames, real deltas m*2^-e s and some beyond '
-                        'the 250 ms clamp, relative speed changing among {0,1/4,1/2,1,2,4}, pauses, a rebuild in the middle; polled durations and event payloads are recomputed '
+                        'the 250 ms clamp, relative speed changing among {0,1/4,1/2,1,2,4}, pauses, a rebuild in the middle; shared contexts with three holders some of which leave in mid-run; polled durations and event payloads are recomputed '
                         'from the polled states and (clamped real delta x speed, 0 while paused)'))
-CLAUSES_A = {1: 'polled elapsed differs from the sum of virtual deltas since the action left None', 2: 'polled fired differs from the sum of virtual deltas over the latest run of frames whose previous state was Fired',
+CLAUSES_A = {30: 'an operation between two frames (a holder leaving) changed the polled durations / state of an instance it neither built nor removed', 1: 'polled elapsed differs from the sum of virtual deltas since the action left None', 2: 'polled fired differs from the sum of virtual deltas over the latest run of frames whose previous state was Fired',
              3: 'not 0 <= fired <= elapsed', 4: 'durations carried by an event differ from the polled ones', 8: 'panic', 9: 'malformed trace', 10: 'panic'}
 CLAUSES = {1: 'polled state is not the state passed to update', 2: 'elapsed differs from the sum of deltas since the action left None',
            3: 'fired differs from the sum of deltas over the latest run of frames whose previous state was Fired',
